@@ -47,6 +47,7 @@ type frame struct {
 	isRoot  bool
 	dbgVals map[string][]ssa.Value // ident name → values (from DebugRef)
 	escaped map[string]bool        // loc: regions whose address escaped
+	localMaps   map[ssa.Value]*types.Map
 	exitSkipped map[string]string
 	exitDone    map[string]bool
 	anc     map[*ssa.BasicBlock]map[int]bool
@@ -634,6 +635,7 @@ func (fr *frame) enterBlock(b *ssa.BasicBlock) (string, *state) {
 			}
 			o := fr.oblige("inv-entry", c.Label, in.cond, t, b.Instrs[0].Pos(), clauseProps(c, e))
 			o.Src = c.Text
+			e.assume(implies(in.cond, t)) // cumulative: later clauses may use earlier ones
 		}
 	}
 	var conds []string
@@ -649,7 +651,7 @@ func (fr *frame) enterBlock(b *ssa.BasicBlock) (string, *state) {
 			esc[r] = true
 		}
 	}
-	e.havocEffects(st, eff, esc)
+	fr.havocKeepingLocalMaps(st, eff, esc, fr.mapsWrittenIn(li))
 	// fresh phis
 	for _, instr := range b.Instrs {
 		phi, ok := instr.(*ssa.Phi)
@@ -984,4 +986,22 @@ func readFileCached(name string) []byte {
 	}
 	fileCache[name] = b
 	return b
+}
+
+// mapsWrittenIn: local maps updated or deleted from inside the loop body.
+func (fr *frame) mapsWrittenIn(li *loopInfo) map[ssa.Value]bool {
+	w := map[ssa.Value]bool{}
+	for b := range li.body {
+		for _, ins := range b.Instrs {
+			switch u := ins.(type) {
+			case *ssa.MapUpdate:
+				w[u.Map] = true
+			case *ssa.Call:
+				if bi, ok := u.Call.Value.(*ssa.Builtin); ok && bi.Name() == "delete" {
+					w[u.Call.Args[0]] = true
+				}
+			}
+		}
+	}
+	return w
 }
